@@ -89,9 +89,11 @@ def explore(ctx, extended=False, focus=None):
         correspond(ex, r, LEVELS)
         R = ref.Ref(r.case.cfg)
         R.run([t.split() for t in r.case.instrs])
+        deviated = False
         for i, got in enumerate(r.regs):
             d = ref.compare(R.regs[i], R.kinds[i], got)
             if d:
+                deviated = True
                 sig = instr_sig(r.case, r.regs, i); sig["dev"] = "wrong-value"
                 try:
                     gv = ref.parse_val(got)[0]
@@ -108,7 +110,10 @@ def explore(ctx, extended=False, focus=None):
                     sig = instr_sig(r.case, r.regs, i); sig["dev"] = "value-where-python-raises"
                     ex.violations.append(Violation(sig, f"r{i} ({r.case.instrs[i]}) returned {got[:60]} where plain Python raises / the result is undefined",
                                                    {"case": r.case.line(), "register": i}))
+                    deviated = True
                     break
+        if deviated:
+            continue        # everything downstream of a reported deviation runs on values the reference does not have
         if not r.ok and r.errpos is not None and r.errpos < len(r.case.instrs):
             i = r.errpos
             if in_domain(r.case, R, i, r.regs):
